@@ -1,6 +1,7 @@
 package c11
 
 import (
+	"reflect"
 	"unsafe"
 
 	"github.com/luthersystems/elps/lisp"
@@ -15,3 +16,60 @@ const cellSize = int(unsafe.Sizeof((*lisp.LVal)(nil)))
 
 func dataOfCells(c []*lisp.LVal) uintptr { return uintptr(unsafe.Pointer(unsafe.SliceData(c))) }
 func dataOfBytes(b []byte) uintptr       { return uintptr(unsafe.Pointer(unsafe.SliceData(b))) }
+
+// identOf is the identity of the real mutable object behind a container
+// value: what an in-place operation writes through, whatever header or
+// wrapper it is reached by.
+func identOf(lv *lisp.LVal) uintptr {
+	switch lv.Type {
+	case lisp.LSExpr:
+		return uintptr(unsafe.Pointer(lv))
+	case lisp.LArray:
+		if len(lv.Cells) == 2 {
+			return uintptr(unsafe.Pointer(lv.Cells[1])) // append! swaps this holder's Cells
+		}
+	case lisp.LBytes:
+		if p, ok := lv.Native.(*[]byte); ok {
+			return uintptr(unsafe.Pointer(p))
+		}
+	case lisp.LSortMap:
+		md := lv.Map()
+		if md == nil {
+			return 0
+		}
+		// the Go map inside the default implementation (two MapData wrappers
+		// around one map are one object); fall back to the wrapper's address
+		if p := innerMapPointer(md); p != 0 {
+			return p
+		}
+		return uintptr(unsafe.Pointer(md))
+	}
+	return uintptr(unsafe.Pointer(lv))
+}
+
+func innerMapPointer(md *lisp.MapData) (p uintptr) {
+	defer func() {
+		if recover() != nil {
+			p = 0
+		}
+	}()
+	v := reflect.ValueOf(md).Elem()
+	if v.Kind() != reflect.Struct || v.NumField() == 0 {
+		return 0
+	}
+	f := v.Field(0) // the embedded Map interface
+	if f.Kind() == reflect.Interface {
+		f = f.Elem()
+	}
+	if f.Kind() == reflect.Ptr {
+		f = f.Elem()
+	}
+	if f.Kind() == reflect.Struct {
+		for i := 0; i < f.NumField(); i++ {
+			if f.Field(i).Kind() == reflect.Map {
+				return f.Field(i).Pointer()
+			}
+		}
+	}
+	return 0
+}
